@@ -12,6 +12,9 @@ A unit template (contracts/verus/<unit>.rs.tmpl) is a Verus source file in which
         <ghost lines>
     insert loopinv "<literal prefix of a loop header>":
         <invariant / decreases clauses, placed before the `{` opening that loop's body>
+    insert loopend "<literal prefix of a loop header>":
+        <ghost lines, placed at the end of that loop's body (does not depend on the statements of the body)>
+    (`insert before all` / `after all` / `loopinv all`: the same lines at every occurrence -- twin loops)
     rewrite "<literal>" => "<literal>"
     @*/
 
@@ -450,6 +453,12 @@ def apply_edits(fn_name, sig2, body2, rewrites, inserts, notes):
             # insert before the `{` that opens the loop body following the anchor (anchor = loop header prefix)
             k2 = find_body_open(body2, k + len(anchor))
             body2 = body2[:k2].rstrip() + "\n" + text + body2[k2:]
+        elif where == "loopend":
+            # at the end of the body of the loop whose header starts with the anchor: the text does not depend on the
+            # statements of the body (an edit of those reaches the verifier instead of losing the anchor)
+            k2 = find_body_open(body2, k + len(anchor))
+            k3 = match_brace(body2, k2) - 1
+            body2 = body2[:k3].rstrip() + "\n" + text + body2[k3:]
         elif where == "after":
             k2 = k + len(anchor)
             body2 = body2[:k2] + "\n" + text + body2[k2:]
@@ -740,7 +749,7 @@ def _parse_fn_block(block):
             flush()
             cur = ("spec", None)
             continue
-        m = re.match(r'insert (before|after|loopinv)( first| all)? "(.*)":$', st)
+        m = re.match(r'insert (before|after|loopinv|loopend)( first| all)? "(.*)":$', st)
         if m:
             flush()
             # `first`: the anchor may occur several times, the first occurrence is meant (robust against edits that add more)
